@@ -370,11 +370,11 @@ def load_cases(outdir):
     return cases
 
 
-def one_round(pid, cfg, seed, n, tier, tag, timeout):
+def one_round(pid, cfg, seed, n, tier, tag, timeout, mode="gen"):
     """Runs implementation + judge once.  Returns dict with cases, oracle failures,
     mismatches, direct findings, errors."""
     outdir = os.path.join(BUILD, "cases", "%s-%s%s" % (pid, tag, "-alt" if ALT else ""))
-    rc, out = run_impl(pid, seed, n, tier, outdir, timeout)
+    rc, out = run_impl(pid, seed, n, tier, outdir, timeout, mode=mode)
     r = {"n": n, "seed": seed, "outdir": outdir, "impl_rc": rc, "impl_log": out[-3000:], "cases": [], "oracle": [], "mismatch": [],
          "direct": [], "errors": [], "meta": {}}
     r["cases"] = load_cases(outdir)
@@ -492,7 +492,7 @@ def main(argv=None):
         if need_search and not concrete:
             # intensified search for a failing input
             k = cfg["search_factor"]
-            r2 = one_round(pid, cfg, seed + 7919, n * k, "thorough", "search", timeout * 2)
+            r2 = one_round(pid, cfg, seed + 7919, n * k, tier, "search", timeout * 2, mode="search")
             rounds.append(r2)
             log("[%s] search: %d cases, %d oracle failures, %d mismatches" % (
                 pid, len(r2["cases"]), len(r2["oracle"]), len(r2["mismatch"])))
